@@ -213,7 +213,11 @@ def gen_cases(sets, meta, tier):
                 for pre in ('', 'Y3 N ', 'Y3 N Y4 N '):
                     if ln == 3 and pre != 'Y3 N ':
                         continue
-                    yield 'allbytes', si, f'I Hb0 H1 H2 S B {pre}Y* N O Ra Y5 N O Ra ALL{ln}'
+                    if ln == 3:
+                        for b0 in range(256):        # sharded by first byte so that the 16.7M strings spread over all workers
+                            yield 'allbytes', si, f'I Hb0 H1 H2 S B {pre}Y* N O Ra Y5 N O Ra ALL3:{b0}'
+                    else:
+                        yield 'allbytes', si, f'I Hb0 H1 H2 S B {pre}Y* N O Ra Y5 N O Ra ALL{ln}'
         # G. every truncation and every single-bit flip of the audio packets
         na = len(pk) - 4
         lim = na if (kind != 'real' or tier == 'thorough') else 8
